@@ -1028,6 +1028,23 @@ pub async fn exec_c06(script: Value) -> ExecResult {
                 for o in &ops {
                     if o.ok == Some(true) {
                         let c = o.content.clone().unwrap_or_default();
+                        if !hist.contains(&c) {
+                            // signature of the recorded skipped-apply defect: the entry is in the nodes' logs
+                            let mut in_logs = 0;
+                            let mut total = 0;
+                            for n in live_nodes() {
+                                total += 1;
+                                let m = metrics(&n);
+                                if let Ok(es) = n.app.raft_store.get_log_entries(1, m.last_log_index + 1).await {
+                                    if es.iter().any(|e| crate::rig_l::payload_json(&e.payload).contains(&format!("\"{}\"", c))) && m.last_applied == m.last_log_index {
+                                        in_logs += 1;
+                                    }
+                                }
+                            }
+                            if in_logs * 2 > total {
+                                vfail!(&format!("{}.entry_skipped_at_leader_change", id), "publish of {} to key {} (step {}) was answered with success; {} of {} nodes hold the entry in their logs and report it applied, but no node serves it or has it in the key's history", c, ks, o.step, in_logs, total);
+                            }
+                        }
                         vensure!(hist.contains(&c), &format!("{}.acked_write_lost", id), "publish of {} to key {} through node {} (step {}) was answered with success but the content is in no node's committed history of that key (history, newest first: {:?}; current value {:?})", c, ks, o.node, o.step, hist, cur);
                     }
                 }
